@@ -159,6 +159,20 @@ def split_prints(out):
     return recs
 
 
+def verdicts(out, n_expected=None):
+    """Verdict lines of a trace specification: PrintT(ToJson(<<"V", tid, bad>>)) - one JSON line per trace
+    (ToJson keeps the value on one line; TLC's pretty printer wraps long tuples).  Returns {tid: [clauses]}."""
+    v = {}
+    for line in out.splitlines():
+        line = line.strip()
+        if line.startswith('"[\\"V\\",'):
+            rec = json.loads(json.loads(line))
+            v[rec[1]] = rec[2]
+    if n_expected is not None and len(v) != n_expected:
+        raise Machinery("trace validation gave %d verdicts for %d traces" % (len(v), n_expected))
+    return v
+
+
 def tlc(module, cfg, wd, env=None, workers=None, timeout=1800, coverage=False, simulate=None, extra=None,
         cont=False, depth_first=False):
     """Run TLC on spec/<module>.tla with cfg text `cfg`.  Returns dict(rc, out, generated, distinct, prints,
